@@ -41,7 +41,7 @@ class SuperV:
 
 _NATIVE_MODULES = {
     "ast": ast, "re": re, "math": math, "types": types, "functools": functools, "itertools": itertools,
-    "collections": collections,
+    "collections": collections, "dis": __import__("dis"),
 }
 
 
